@@ -115,6 +115,7 @@ impl Canon for std::borrow::Cow<'_, str> {
     fn parse(p: &mut P) -> Self { std::borrow::Cow::Owned(String::parse(p)) }
     fn show(&self) -> String { hb(self.as_bytes()) }
 }
+#[cfg(any(not(feature = "cfgmatrix"), feature = "alloc"))]
 impl Canon for minicbor::bytes::ByteVec {
     fn parse(p: &mut P) -> Self { p.hexbytes().into() }
     fn show(&self) -> String { hb(self) }
